@@ -183,6 +183,11 @@ class Callback:
         return "<callback %s>" % self.name
 
 
+class LambdaVal:
+    def __init__(self, node, env):
+        self.node, self.env = node, env
+
+
 class FuncVal:
     def __init__(self, func):
         self.func = func
@@ -323,7 +328,7 @@ class Interp:
             return None if v.kind in ("set", "list", "iter", "maybe-row") else True
         if isinstance(v, (RepList, Star)):
             return None
-        if isinstance(v, (FuncVal, Builtin, TypeVal, ModVal)):
+        if isinstance(v, (FuncVal, Builtin, TypeVal, ModVal, Callback, LambdaVal)):
             return True
         return bool(v)
 
@@ -685,6 +690,9 @@ class Interp:
 
     def e_Tuple(self, node, env):
         return tuple(self.e_List(node, env))
+
+    def e_Lambda(self, node, env):
+        return LambdaVal(node, env)
 
     def e_Set(self, node, env):
         return _setval(self.e_List(node, env))
@@ -1124,6 +1132,18 @@ class Interp:
         if isinstance(fn, Callback):
             self.trace.events.append(("callback", fn, pos, kw, node))
             return fn.result
+        if isinstance(fn, LambdaVal):
+            a = fn.node.args
+            names = [x.arg for x in a.posonlyargs + a.args]
+            if a.vararg or a.kwarg or a.kwonlyargs or len(pos) > len(names):
+                raise Unsupported("lambda signature at line %s" % fn.node.lineno)
+            e2 = dict(fn.env)
+            for n_, d_ in zip(names[len(names) - len(a.defaults):], a.defaults):
+                e2[n_] = self.eval(d_, fn.env)
+            for n_, v_ in zip(names, pos):
+                e2[n_] = v_
+            e2.update(kw)
+            return self.eval(fn.node.body, e2)
         if isinstance(fn, (Opaque, Sym, ModVal)):
             self.trace.events.append(("call-opaque", fn, pos, kw, node))
             return Opaque("%s()" % _nm(fn), "obj")
@@ -1249,8 +1269,33 @@ class Interp:
                 ts = [self.decide(x, node) for x in v]
                 return any(ts) if name == "any" else all(ts)
             raise Unsupported("%s(%r)" % (name, v))
-        if name == "sorted" and isinstance(pos[0], (list, tuple)) and all(isinstance(x, (str, int)) for x in pos[0]):
+        if name == "sorted" and isinstance(pos[0], (list, tuple)) and all(isinstance(x, (str, int)) for x in pos[0]) and not kw:
             return sorted(pos[0])
+        if name in ("sorted", "max", "min") and len(pos) == 1 and isinstance(pos[0], (list, tuple, dict)) and set(kw) <= {"key", "reverse"}:
+            items = list(pos[0])
+            keyf = kw.get("key")
+            keys = [self.call(keyf, [x], {}, node, env) for x in items] if keyf is not None else list(items)
+            if not all(isinstance(k, (int, float, str, tuple)) and not isinstance(k, bool) or isinstance(k, bool) for k in keys):
+                raise Unsupported("%s key is not concrete" % name)
+            try:
+                order = sorted(range(len(items)), key=lambda i: keys[i], reverse=bool(kw.get("reverse", False)))  # stable, like the builtin
+            except TypeError:
+                raise Unsupported("%s over incomparable keys" % name)
+            if name == "sorted":
+                return [items[i] for i in order]
+            if not items:
+                raise RaiseEx("ValueError", "%s() arg is an empty sequence" % name, node)
+            if name == "max":
+                best = 0
+                for i in range(1, len(items)):
+                    if keys[i] > keys[best]:
+                        best = i
+                return items[best]
+            best = 0
+            for i in range(1, len(items)):
+                if keys[i] < keys[best]:
+                    best = i
+            return items[best]
         if name == "enumerate" and isinstance(pos[0], (list, tuple)):
             return [(i, x) for i, x in enumerate(pos[0])]
         if name == "zip" and all(isinstance(x, (list, tuple)) for x in pos):
@@ -1479,14 +1524,17 @@ class Interp:
                 if isinstance(subj, str):
                     return getattr(_re.compile(base.pattern), attr)(subj) is not None
                 if isinstance(subj, AStr):
-                    # decide on the literal prefix; holes stand for at least one non-structural character
-                    lit = ""
-                    for p_ in subj.parts:
-                        if isinstance(p_, str):
-                            lit += p_
-                        else:
-                            lit += "\x00"
-                    return getattr(_re.compile(base.pattern), attr)(lit) is not None
+                    # holes stand for at least one non-structural character: decided when a word-like and a
+                    # non-word representative agree, otherwise the outcome depends on the value's content (fork)
+                    outs = []
+                    for filler in ("\x00", "w"):
+                        lit = ""
+                        for p_ in subj.parts:
+                            lit += p_ if isinstance(p_, str) else filler
+                        outs.append(getattr(_re.compile(base.pattern), attr)(lit) is not None)
+                    if outs[0] == outs[1]:
+                        return outs[0]
+                    return ACond("re." + attr, base.pattern, subj, node)
                 if isinstance(subj, Sym):
                     return getattr(_re.compile(base.pattern), attr)("\x00") is not None
             raise Unsupported("regex method %s" % attr)
@@ -1497,6 +1545,9 @@ class Interp:
             if full in ("copy.copy", "copy.deepcopy") and pos:
                 return copy.deepcopy(pos[0]) if isinstance(pos[0], (dict, list)) else pos[0]
         # ---- opaque receivers
+        if isinstance(base, (Opaque, Sym)) and isinstance(base.attrs.get(attr), (Callback, FuncVal, LambdaVal, Builtin, TypeVal)):
+            # an attribute holding a callable (self.transform)
+            return self.call(base.attrs[attr], pos, kw, node, env)
         if isinstance(base, (Opaque, Sym)):
             if isinstance(base, Opaque) and base.name == "self" and base.kind == "obj":
                 func = env.get("__func__")
